@@ -400,7 +400,7 @@ def main(argv):
         'property_id': prop, 'tier': tier, 'seed': seed, 'level': cfg.get('level', 'proof'),
         'coverage': {
             'obligations': obligations, 'discharged': discharged,
-            'checker_cmd': ' && '.join(checker_cmds[:6]) or 'none',
+            'checker_cmd': (' && '.join(checker_cmds[:6]) or 'none').replace('/run-%d' % os.getpid(), ''),
             'trusted_base': sorted(set(trusted)) + cfg.get('trusted_extra', []),
             'functions_under_contract': fn_rows,
             'pasted_items': extraction,
@@ -438,5 +438,26 @@ def main(argv):
     return rc
 
 
+def _main_isolated(argv):
+    """each run expands its templates into its own directory (build/run-<pid>), so checks of different properties
+    that share a unit can run side by side; the generated files are published to build/ (atomic rename) afterwards"""
+    import shutil
+    if 'VERIF_BUILD_DIR' in os.environ or '--replay' in argv:
+        return main(argv)
+    shared = vx.BUILD
+    run_dir = os.path.join(shared, 'run-%d' % os.getpid())
+    os.makedirs(run_dir, exist_ok=True)
+    vx.BUILD = run_dir
+    try:
+        return main(argv)
+    finally:
+        try:
+            for fn in os.listdir(run_dir):
+                os.replace(os.path.join(run_dir, fn), os.path.join(shared, fn))
+            shutil.rmtree(run_dir, ignore_errors=True)
+        except OSError:
+            pass
+
+
 if __name__ == '__main__':
-    sys.exit(main(sys.argv))
+    sys.exit(_main_isolated(sys.argv))
